@@ -101,6 +101,18 @@ def js_len(v):
 # ---- templates
 TVARS = {'x': 3, 'y': 'ab', 'z': True, 'n': 3000000000, 'w': 'é✓'}
 TEXPRS = [('x', 3), ('x + 1', 4), ('x * 2', 6), ('y', 'ab'), ('z', True), ('y + "c"', 'abc'), ('w', 'é✓'), ('x > 2', True), ('1 + 1', 2), ('"lit"', 'lit'), ('x - 3', 0), ('y.length', 2)]
+TEXPR_FN = {'x': lambda V: V['x'], 'x + 1': lambda V: V['x'] + 1, 'x * 2': lambda V: V['x'] * 2, 'y': lambda V: V['y'], 'z': lambda V: V['z'], 'y + "c"': lambda V: V['y'] + 'c', 'w': lambda V: V['w'],
+            'x > 2': lambda V: V['x'] > 2, '1 + 1': lambda V: 2, '"lit"': lambda V: 'lit', 'x - 3': lambda V: V['x'] - 3, 'y.length': lambda V: len(V['y'].encode('utf-16-le')) // 2}
+
+
+def expect_under(s, typed, V):
+    """the independent template evaluator applied to template string s under the variable values V"""
+    import re
+    if typed:
+        return TEXPR_FN[re.fullmatch(r'\{\{\s*(.*?)\s*\}\}', s).group(1)](V)
+    return re.sub(r'\{\{\s*(.*?)\s*\}\}', lambda m_: text_of(TEXPR_FN[m_.group(1)](V)), s)
+
+
 LIT = ['', 'a=', ' ', ' and ', 'é:', '-', 'x', '%', ' b=', '(', ')', '$', '"']
 
 
@@ -159,12 +171,26 @@ class ScriptFamily:
             steps.append({'id': 's5', 'if': f'JSON.stringify(v).length == {n}', 'acts': [{'id': 'a5', 'uses': MSG, 'key': 'len_ok'}]})
         if isinstance(v, (int, float)) and not isinstance(v, bool) and float(v) == v and abs(v) < 2 ** 53 and (isinstance(v, int) or v == int(v) or abs(v) > 1e-300):
             steps.append({'id': 's6', 'if': f'v === {json.dumps(v)}', 'acts': [{'id': 'a6', 'uses': MSG, 'key': 'num_ok'}]})
-        wf = {'id': 'm1', 'inputs': {'v': None, 'out_ret': None, 'out_set': None, 'out_lit': None, 'out_lit2': None},
-              'outputs': {'out_ret': None, 'out_set': None, 'out_lit': None, 'out_lit2': None, 'v': None}, 'steps': steps}
-        sc = {'id': '', 'family': 'script', 'sched': 'cur', 'runtime': {'flavor': 'current'}, 'engine': {'store': 'mem', 'keep_processes': True}, 'models': [json.dumps(wf, ensure_ascii=False)],
-              'responder': {'rules': []}, 'ops': [{'op': 'start', 'mid': 'm1', 'vars': {'pid': 'p1', 'v': v}}, {'op': 'run'}, {'op': 'snapshot', 'level': 'live'}]}
+        store = opts.get('store', 'mem')
+        reload_ = rng.random() < opts.get('reload', 0.3) or store == 'sqlite'
+        extra_in, extra_out = {}, {}
+        if reload_:
+            # "stored unchanged": the value is also put into the process env, the client is asked once (a quiescent point
+            # at which the process is dropped from the cache / the engine restarted), then everything is read back
+            steps.append({'id': 's7', 'acts': [{'id': 'a7', 'uses': 'acts.transform.code', 'params': '$env.ev = $get("v");'}, {'id': 'wait', 'uses': IRQ, 'key': 'wait'}]})
+            steps.append({'id': 's8', 'acts': [{'id': 'a8', 'uses': 'acts.transform.code', 'params': '$set("back_set", $get("out_set")); $set("back_env", $env.ev); $set("back_v", v);'}]})
+            extra_in = {'back_set': None, 'back_env': None, 'back_v': None}
+            extra_out = dict(extra_in)
+        wf = {'id': 'm1', 'inputs': dict({'v': None, 'out_ret': None, 'out_set': None, 'out_lit': None, 'out_lit2': None}, **extra_in),
+              'outputs': dict({'out_ret': None, 'out_set': None, 'out_lit': None, 'out_lit2': None, 'v': None}, **extra_out), 'steps': steps}
+        sc = {'id': '', 'family': 'script', 'sched': 'cur' + ('-reload-' + store if reload_ else ''), 'runtime': {'flavor': 'current'}, 'engine': {'store': store, 'keep_processes': True}, 'models': [json.dumps(wf, ensure_ascii=False)],
+              'responder': {'mode': 'quiescent', 'rules': [{'match': {'key': 'wait'}, 'action': 'next'}]}, 'ops': [{'op': 'start', 'mid': 'm1', 'vars': {'pid': 'p1', 'v': v}}, {'op': 'run'}, {'op': 'snapshot', 'level': 'live'}]}
+        if reload_:
+            sc['faults'] = {'restart_at': [1]} if store == 'sqlite' else {'evict_at': [1]}
+            if store == 'sqlite':
+                sc['watchdog_ms'] = 60000
         nontriv = isinstance(v, (dict, list)) and len(v) > 0 or (isinstance(v, int) and abs(v) >= 2 ** 31) or isinstance(v, float) or (isinstance(v, str) and any(ord(c) > 127 or c in '"\\\n' for c in v))
-        return {'scenarios': [sc], 'meta': {'v': v, 'cond': cond, 'sub': 'value'}, 'digest': digest(v), 'nontrivial': bool(nontriv)}
+        return {'scenarios': [sc], 'meta': {'v': v, 'cond': cond, 'sub': 'value', 'reload': reload_}, 'digest': digest([v, reload_, store]), 'nontrivial': bool(nontriv)}
 
     def gen_tpl(self, rng):
         tpls = [gen_template(rng) for _ in range(rng.randint(1, 4))]
@@ -172,9 +198,18 @@ class ScriptFamily:
         for i, (s, exp, n, typed) in enumerate(tpls):
             acts.append({'id': f't{i}', 'uses': MSG, 'key': f'tk{i}', 'params': s if rng.random() < 0.6 else {'nested': [s, {'deep': s}]}})
         wf = {'id': 'm1', 'inputs': dict(TVARS), 'steps': [{'id': 's1', 'acts': acts}]}
-        sc = {'id': '', 'family': 'script', 'sched': 'cur', 'runtime': {'flavor': 'current'}, 'engine': {'store': 'mem', 'keep_processes': True}, 'models': [json.dumps(wf, ensure_ascii=False)],
-              'responder': {'rules': []}, 'ops': [{'op': 'start', 'mid': 'm1', 'vars': {'pid': 'p1'}}, {'op': 'run'}, {'op': 'snapshot', 'level': 'live'}]}
-        return {'scenarios': [sc], 'meta': {'tpls': tpls, 'wf': wf, 'sub': 'template'}, 'digest': digest([t[0] for t in tpls]), 'nontrivial': any(t[2] >= 1 for t in tpls)}
+        rules = []
+        twopass = rng.random() < 0.3
+        if twopass:
+            # the same nodes run a second time (the client sends the flow back once) after variables have changed:
+            # a script in front moves x from -1 to 3 to 7 and y from "q" to "ab" to "é7"
+            wf['inputs'].update(x=-1, y='q')
+            wf['steps'].insert(0, {'id': 's0', 'acts': [{'id': 'inc', 'uses': 'acts.transform.code', 'params': '$set("x", x + 4); $set("y", y == "q" ? "ab" : "é7");'}]})
+            wf['steps'].append({'id': 's2', 'acts': [{'id': 'again', 'uses': IRQ, 'key': 'again'}]})
+            rules = [{'match': {'key': 'again'}, 'action': 'back', 'options': {'to': 's0'}, 'times': 1}, {'match': {'key': 'again'}, 'action': 'next', 'times': 5}]
+        sc = {'id': '', 'family': 'script', 'sched': 'cur' + ('-twopass' if twopass else ''), 'runtime': {'flavor': 'current'}, 'engine': {'store': 'mem', 'keep_processes': True}, 'models': [json.dumps(wf, ensure_ascii=False)],
+              'responder': {'mode': 'quiescent', 'rules': rules}, 'ops': [{'op': 'start', 'mid': 'm1', 'vars': {'pid': 'p1'}}, {'op': 'run'}, {'op': 'snapshot', 'level': 'live'}]}
+        return {'scenarios': [sc], 'meta': {'tpls': tpls, 'wf': wf, 'sub': 'template', 'twopass': twopass}, 'digest': digest([[t[0] for t in tpls], twopass]), 'nontrivial': any(t[2] >= 1 for t in tpls)}
 
     def judge(self, c, opts, obs):
         h, sc, m = c['hist'][0], c['scenarios'][0], c['meta']
@@ -190,7 +225,7 @@ class ScriptFamily:
                     out.append(V('C14', 'template-message-missing', '', f"msg act with params {s!r} produced no message", scenario=sid))
                     continue
                 got = (d[0].get('inputs') or {}).get('params')
-                nested = isinstance(wf['steps'][0]['acts'][i]['params'], dict)
+                nested = isinstance([st for st in wf['steps'] if st['id'] == 's1'][0]['acts'][i]['params'], dict)
                 if nested:
                     ok = isinstance(got, dict) and isinstance(got.get('nested'), list) and len(got['nested']) == 2 and same(got['nested'][0], exp) and same((got['nested'][1] or {}).get('deep'), exp)
                     gv = got
@@ -200,6 +235,17 @@ class ScriptFamily:
                 if not ok:
                     kind = 'none' if n == 0 else 'sole-typed' if typed else f'{"one" if n == 1 else "several"}-in-text'
                     out.append(V('C14', 'template-result', kind, f"params {s!r} evaluated to {gv!r}, expected {exp!r}", scenario=sid))
+                if m.get('twopass'):
+                    obs['c14.templates-second-pass'] += 1
+                    V2 = dict(TVARS, x=7, y='é7')
+                    exp2 = expect_under(s, typed, V2) if n else s
+                    if len(d) < 2:
+                        out.append(V('C14', 'template-message-missing', 'second-pass', f"msg act with params {s!r} produced {len(d)} messages over two passes", scenario=sid))
+                        continue
+                    got2 = (d[1].get('inputs') or {}).get('params')
+                    ok2 = (isinstance(got2, dict) and isinstance(got2.get('nested'), list) and len(got2['nested']) == 2 and same(got2['nested'][0], exp2) and same((got2['nested'][1] or {}).get('deep'), exp2)) if nested else (same(got2, exp2) and type(got2) == type(exp2))
+                    if not ok2:
+                        out.append(V('C14', 'template-result', f"second-pass:{'none' if n == 0 else 'sole-typed' if typed else 'in-text'}", f"second pass (x=7, y='é7'): params {s!r} evaluated to {got2!r}, expected {exp2!r}", scenario=sid))
             return out
         v = m['v']
         cb = [e for e in h.cbs if e['what'] == 'complete']
@@ -213,6 +259,14 @@ class ScriptFamily:
             obs['c14.observations'] += 1
             if not same(o.get(name), v):
                 out.append(V('C14', 'value-changed', f"{what}:{classify(v, o.get(name))}", f"{what}: {json.dumps(v)[:70]} came back as {json.dumps(o.get(name))[:70]}", scenario=sid))
+        if m.get('reload'):
+            for name, what in (('back_set', 'set-by-script-read-after-reload'), ('back_env', 'env-set-by-script-read-after-reload'), ('back_v', 'variable-read-after-reload')):
+                obs['c14.observations-after-reload'] += 1
+                want = v
+                if name == 'back_env' and v is None:
+                    continue            # an env entry holding null and a missing one read the same
+                if not same(o.get(name), want):
+                    out.append(V('C14', 'value-changed', f"{what}:{classify(v, o.get(name))}", f"{what}: {json.dumps(v)[:70]} came back as {json.dumps(o.get(name))[:70]}", scenario=sid))
         final = {t['nid']: t['state'] for t in h.final_tasks().values()}
         if m['cond'] is not None:
             obs['c14.condition-observations'] += 1
